@@ -36,6 +36,19 @@ for rel, kinds in TARGETS.items():
     dst = os.path.join(out, rel.replace("/", "__"))
     open(dst, "w").write(s)
     replace[src] = dst
+# the message log: the commit-log library cannot be overlaid (module cache), so the store opens it through a proxy whose
+# write path takes a shimmed lock first: what the store does before handing bytes to the library (encoding the message)
+# then interleaves with other appenders, exactly as it does around the library's own mutex
+rel = "wasp/messages/store.go"
+src = os.path.join("/repo", rel)
+s = open(src).read()
+s, n1 = re.subn(r'\bcommitlog\.Open\(', 'vcommitlog.Open(', s)
+s, n2 = re.subn(r'^(\s*)"github.com/vx-labs/commitlog"\s*$', r'\1"github.com/vx-labs/commitlog"\n\1vcommitlog "verif/vcommitlog"', s, flags=re.M)
+if n1 != 1 or n2 != 1:
+    print("overlay: %s no longer opens the commit log the way the proxy expects (%d, %d)" % (rel, n1, n2), file=sys.stderr); sys.exit(2)
+dst = os.path.join(out, rel.replace("/", "__"))
+open(dst, "w").write(s)
+replace[src] = dst
 # any other file of the target packages that uses sync primitives on shared structures would escape the shim: report
 json.dump({"Replace": replace}, open(os.path.join(out, "overlay.json"), "w"), indent=1)
 print("overlay: %d files" % len(replace), file=sys.stderr)
